@@ -674,13 +674,13 @@ fn arch_mut_strategy() -> impl Strategy<Value = ArchMut> {
 
 fn mut_case_strategy(class: Class, db: bool) -> impl Strategy<Value = MutCase> {
     let attach = if class == Class::HostileName { 0.3 } else { 0.1 };
-    (source_strategy(db, 6, attach), proptest::collection::vec(arch_mut_strategy(), 1..=3)).prop_map(move |(source, muts)| MutCase { class, source, muts })
+    (proptest::collection::vec(arch_mut_strategy(), 1..=3), source_strategy(db, 6, attach)).prop_map(move |(muts, source)| MutCase { class, source, muts })
 }
 
 pub const CLASSES: [Class; 6] = [Class::FlipEntry, Class::ManifestChecksum, Class::ManifestAccountId, Class::DropEntry, Class::DuplicateEntry, Class::HostileName];
 
 /// real evaluations spent on shrinking one failing sub-check (cases cost ~0.5-1 s)
-const SHRINK_BUDGET: u32 = 30;
+const SHRINK_BUDGET: u32 = 10;
 
 fn run(shard: &Shard, rep: &mut Report) {
     let t = shard.tier;
